@@ -61,7 +61,7 @@ def regen():
     return py2lean.generate(REPO, os.path.join(LEAN, 'Pycdlib', 'Generated'))
 
 
-def lake_build(targets, timeout=1500):
+def lake_build(targets, timeout=900):
     """Build targets; returns (ok, output)."""
     with lake_lock():
         p = subprocess.run(['lake', 'build'] + list(targets), cwd=LEAN, stdout=subprocess.PIPE,
